@@ -244,7 +244,9 @@ def _gpg(ctx, d, pgpy):
                     gd, bd, s_ = verified_sigs(pgpy, pk2)
                     if bd:
                         ctx.fail('signature-fails-after-import-of-gpg-export', {'shape': shape, 'bad': len(bd)})
-                    if bytes(pgpy.PGPKey.from_blob(bytes(k2))[0]) != bytes(k2):
+                    b2 = bytes(k2)
+                    b3 = bytes(pgpy.PGPKey.from_blob(b2)[0])
+                    if b3 != b2 and keyshape.blob_tree(b3) != keyshape.blob_tree(b2):
                         ctx.fail('gpg-export-second-pass-differs', {'shape': shape})
                 except Exception as e:
                     ctx.fail('gpg-export-not-importable', {'shape': shape, 'secret': secret, 'err': repr(e)[:200]})
